@@ -19,3 +19,29 @@ for L in range(0, 11):
     Q('C13', 'minify.L%d' % L, 'harness/c13_minify.c', defs=['-DL=%d' % L], unwind=L + 3,
       tiers=('quick', 'thorough') if L <= 7 else ('thorough',), cost=L,
       functions=['cJSON_Minify', 'minify_string', 'skip_oneline_comment', 'skip_multiline_comment'])
+
+# ------------------------------------------------------------------ parse units (C01, C02, C03, C10)
+PARSE_PROPS = ('C01', 'C02', 'C03', 'C10')
+def QP(qid, src, props=PARSE_PROPS, **kw):
+    """a parse-unit query is shared by several properties; each property run keeps only its own obligations"""
+    for p in props:
+        kw2 = dict(kw); kw2['defs'] = list(kw.get('defs', [])) + ['-DVF_ONLY=%d' % int(p[1:])]
+        Q(p, qid, src, **kw2)
+
+for M in (1, 2, 3, 4, 6, 8, 12, 33, 62, 63, 64, 65, 66):
+    quick = M in (1, 2, 3, 4, 6, 64, 65)
+    tiers = ('quick', 'thorough') if quick else ('thorough',)
+    fn = ['parse_number', 'get_decimal_point']
+    if M <= 12:
+        QP('num.M%d' % M, 'harness/parse_num.c', defs=['-DM=%d' % M], unwind=M + 2, tiers=tiers, cost=M, functions=fn)
+    else:
+        # long buffers: offset 0; safety/rejection/offset obligations on arbitrary bytes, C02 on constructed long integer literals
+        QP('num.M%d' % M, 'harness/parse_num.c', props=('C01', 'C03', 'C10'), defs=['-DM=%d' % M, '-DOFF0'], unwind=min(M, 64) + 2, tiers=tiers, cost=M, functions=fn)
+        QP('numlong.M%d' % M, 'harness/parse_num.c', props=('C02',), defs=['-DM=%d' % M, '-DOFF0', '-DLONGINT'], unwind=min(M, 64) + 3, tiers=tiers, cost=M, functions=fn)
+
+STRFN = ['parse_string', 'utf16_literal_to_utf8', 'parse_hex4']
+for M in (1, 2, 3, 4, 5, 6, 7, 8, 10, 12):
+    tiers = ('quick', 'thorough') if M <= 8 else ('thorough',)
+    QP('str.M%d' % M, 'harness/parse_str.c', props=('C01', 'C02', 'C03', 'C08', 'C10'), defs=['-DM=%d' % M], unwind=M + 2, tiers=tiers, cost=M * 2, functions=STRFN)
+QP('str.u1', 'harness/parse_str.c', props=('C01', 'C02', 'C03'), defs=['-DM=8', '-DTEMPLATE=1'], unwind=10, cost=5, functions=STRFN)
+QP('str.u2', 'harness/parse_str.c', props=('C01', 'C02', 'C03'), defs=['-DM=14', '-DTEMPLATE=2'], unwind=16, cost=8, functions=STRFN)
